@@ -106,6 +106,9 @@ class AbsEval:
                 return hook(type(e.op).__name__, self.eval(e.left, env), self.eval(e.right, env), env)
             return UNKNOWN
         if isinstance(e, ast.Call):
+            cached = env.get("@callvals", {})
+            if id(e) in cached:
+                return cached[id(e)]
             hook = _hook(self.ops, "call")
             if hook:
                 args = [self.eval(a, env) for a in e.args if not isinstance(a, ast.Starred)]
@@ -166,9 +169,15 @@ class Outcome:
 
 
 class Machine:
-    def __init__(self, cfg: CFG, ops: Any, max_steps: int = 600, max_outcomes: int = 3000):
+    def __init__(self, cfg: CFG, ops: Any, max_steps: int = 600, max_outcomes: int = 3000,
+                 resolver: Optional[Callable[[ast.Call, Dict[str, Any]], Any]] = None, depth: int = 0):
+        """``resolver(call_ast, env)`` may return ``(callee_cfg, bound_parameters)`` for a call
+        of a synchronous library helper; the helper is then evaluated by a nested machine
+        (shared '@' state), so extracting code into a private helper does not blind a rule."""
         self.cfg = cfg
         self.ops = ops
+        self.resolver = resolver
+        self.depth = depth
         self.ev = AbsEval(ops)
         self.max_steps = max_steps
         self.max_outcomes = max_outcomes
@@ -254,6 +263,28 @@ class Machine:
             e = dict(e)
             e["@next"] = v
             return self._follow(node, e, ("n",))
+        if k == "call" and self.resolver is not None and self.depth < 3:
+            target = self.resolver(node.ast, e)
+            if target is not None:
+                callee_cfg, bound = target
+                sub_env = {key: val for key, val in e.items() if key.startswith("@")}
+                sub_env.pop("@return", None)
+                sub_env.update(bound)
+                sub = Machine(callee_cfg, self.ops, self.max_steps, self.max_outcomes, self.resolver, self.depth + 1)
+                out: List[Tuple[Node, Dict[str, Any]]] = []
+                for oc in sub.run(sub_env):
+                    e2 = dict(e)
+                    for key, val in oc.env.items():
+                        if key.startswith("@") and key not in ("@return", "@callvals", "@handling"):
+                            e2[key] = val
+                    if oc.terminal.kind == "raise_exit":
+                        out.extend((s, e2) for lab, s in node.succ if lab == "e")
+                    else:
+                        vals = dict(e2.get("@callvals", {}))
+                        vals[id(node.ast)] = oc.env.get("@return")
+                        e2["@callvals"] = vals
+                        out.extend((s, e2) for lab, s in node.succ if lab in ("n",))
+                return out
         if k in ("await", "call", "yield"):
             hook = _hook(self.ops, "visit")
             if hook:
